@@ -230,6 +230,9 @@ func handleMove(ctx context.Context, g *Game, c Client) bool {
 			g.p = next
 			g.Positions = append(g.Positions, g.p)
 			g.Moves = append(g.Moves, move)
+			// The thinker of this invocation was started on the
+			// position before this move; its answer is stale now.
+			moves = nil
 			timeout = time.After(500 * time.Millisecond)
 		case "Abandoned.":
 			log.Printf("game-over game-id=%s opponent=%s ply=%d result=abandoned",
